@@ -4,7 +4,8 @@
 
   The notions used in the statements (`ReprByValue`, `InjectiveNames`, `unionOf`, `ValidValue`,
   `InjectiveCaseNames`, `EveryBitNamed`, `Container`) are defined in
-  `AdaptixProofs/Lemmas/EnumSpec.lean`, `EnumClass.WF` in `Lemmas/EnumClass.lean`.
+  `AdaptixProofs/Lemmas/EnumSpec.lean`, `EnumClass.WF` in `Lemmas/EnumClass.lean`; `servedRepr`,
+  `EnumReprOK`, `FlagReprOK` (providers bound to several predicates) in `Lemmas/EnumBinding.lean`.
 
   All statements quantify over every class (any number of entries, aliases, values of
   the model's universe), every option combination and every datum.  The `example`s
@@ -14,6 +15,7 @@ import AdaptixModel.Morph.Enum
 import AdaptixModel.Morph.Flag
 import AdaptixProofs.Lemmas.EnumSpec
 import AdaptixProofs.Lemmas.EnumProviders
+import AdaptixProofs.Lemmas.EnumBinding
 
 namespace Adaptix.Enum.C18
 
@@ -534,6 +536,171 @@ theorem loader_rejects_exactly_non_representations :
     · exact Or.inl he
     · exact Or.inr hc
 
+/-! ## Which representation applies: providers bound to several predicates (`bound_by_any`)
+
+  Model: `AdaptixModel/Morph/EnumBinding.lean`.  A facade call such as `enum_by_name(A, P[B], "field", …)`
+  binds ONE provider to a list of predicates; a retort serves loaders and dumpers of several classes, in
+  any order, from its caches and its recipe. -/
+
+/-- **Membership is an `any` over the predicates**: the bound provider is offered a request exactly when
+    no predicate was given or one of the predicates matches the request site (the documentation of `preds`). -/
+theorem bound_by_any_applies_iff (preds : List BindPred) (s : Site) :
+    (boundByAny preds).check s = true ↔ preds = [] ∨ ∃ p ∈ preds, p.matches s = true := by
+  match preds with
+  | [] => simp [boundByAny, Checker.check]
+  | [p] => simp [boundByAny, Checker.check]
+  | p :: q :: rest => simp [boundByAny, Checker.check, List.any_cons]
+
+/-- … and therefore does not depend on the order in which the predicates are written. -/
+theorem bound_by_any_perm {ps qs : List BindPred} (h : ps.Perm qs) (s : Site) :
+    (boundByAny ps).check s = (boundByAny qs).check s := by
+  have key : ∀ l : List BindPred, (boundByAny l).check s = true ↔ l = [] ∨ ∃ p ∈ l, p.matches s = true :=
+    fun l => bound_by_any_applies_iff l s
+  have : (boundByAny ps).check s = true ↔ (boundByAny qs).check s = true := by
+    rw [key, key]
+    constructor
+    · rintro (rfl | ⟨p, hp, hm⟩)
+      · exact Or.inl h.nil_eq.symm
+      · exact Or.inr ⟨p, h.mem_iff.1 hp, hm⟩
+    · rintro (rfl | ⟨p, hp, hm⟩)
+      · exact Or.inl h.eq_nil
+      · exact Or.inr ⟨p, h.mem_iff.2 hp, hm⟩
+  cases h1 : (boundByAny ps).check s <;> cases h2 : (boundByAny qs).check s <;> simp_all
+
+/-- **The recipe search picks the first provider that accepts the request**, stated as a relation:
+    position `i` is chosen iff the provider at `i` accepts and none before it does. -/
+theorem select_first_match (recipe : List Bound) (s : Site) (i : Nat) :
+    selectIdx recipe s = some i ↔
+      (∃ b, recipe[i]? = some b ∧ b.applies s = true) ∧
+      ∀ j, j < i → ∀ b, recipe[j]? = some b → b.applies s = false := by
+  induction recipe generalizing i with
+  | nil => simp [selectIdx]
+  | cons b rest ih =>
+    unfold selectIdx
+    by_cases hb : b.applies s = true
+    · simp only [hb, if_true]
+      constructor
+      · intro h
+        cases h
+        exact ⟨⟨b, by simp, hb⟩, fun j hj => absurd hj (Nat.not_lt_zero j)⟩
+      · rintro ⟨_, hbefore⟩
+        cases i with
+        | zero => rfl
+        | succ i =>
+          have := hbefore 0 (Nat.succ_pos i) b (by simp)
+          simp [hb] at this
+    · have hb' : b.applies s = false := by simpa using hb
+      simp only [hb', Bool.false_eq_true, if_false, Option.map_eq_some_iff]
+      constructor
+      · rintro ⟨i', hi', rfl⟩
+        obtain ⟨⟨b', hb1, hb2⟩, hbefore⟩ := (ih i').1 hi'
+        refine ⟨⟨b', by simpa using hb1, hb2⟩, ?_⟩
+        intro j hj b'' hget
+        cases j with
+        | zero => simp at hget; subst hget; exact hb'
+        | succ j => exact hbefore j (by omega) b'' (by simpa using hget)
+      · rintro ⟨⟨b', hb1, hb2⟩, hbefore⟩
+        cases i with
+        | zero => simp at hb1; subst hb1; simp [hb'] at hb2
+        | succ i' =>
+          refine ⟨i', (ih i').2 ⟨⟨b', by simpa using hb1, hb2⟩, ?_⟩, rfl⟩
+          intro j hj b'' hget
+          exact hbefore (j + 1) (by omega) b'' (by simpa using hget)
+
+/-- no provider of the recipe accepts ⇒ the built-in representation -/
+theorem select_none_iff (recipe : List Bound) (s : Site) :
+    selectIdx recipe s = none ↔ ∀ b ∈ recipe, b.applies s = false := by
+  induction recipe with
+  | nil => simp [selectIdx]
+  | cons b rest ih =>
+    unfold selectIdx
+    by_cases hb : b.applies s = true
+    · simp [hb]
+    · have hb' : b.applies s = false := by simpa using hb
+      simp [hb', ih]
+
+/-- **What a retort answers does not depend on its request history**: after ANY sequence of earlier
+    `get_loader` / `get_dumper` calls (other classes, other direction, the same request again), a request is
+    served by the provider the recipe search selects for it on a fresh retort. -/
+theorem served_independent_of_history (recipe : List Bound) (h : List Key) (k : Key) :
+    (request recipe (serve recipe [] h).1 k).2 = selectIdx recipe k.1 :=
+  request_answer (serve_spec h (Cache.coherent_nil recipe)).1 k
+
+/-- every answer of a whole history, in whatever order the requests come -/
+theorem served_history_answers (recipe : List Bound) (h : List Key) :
+    (serve recipe [] h).2 = h.map (fun k => selectIdx recipe k.1) :=
+  (serve_spec h (Cache.coherent_nil recipe)).2
+
+/-- **Loader and dumper of a class use the same representation**, whichever was requested first and
+    whatever else the retort was asked in between. -/
+theorem loader_dumper_same_representation (recipe : List Bound) (h h' : List Key) (s : Site) :
+    servedRepr recipe h (s, .loader) = servedRepr recipe h' (s, .dumper) ∧
+    servedRepr recipe h (s, .loader) = select recipe s := by
+  simp [servedRepr, served_independent_of_history, select]
+
+/-- **Round trip for every Enum class bound through any of several predicates**: whatever recipe of bound
+    representation providers, whatever request site and whatever request histories precede the creation
+    of the loader and of the dumper on the shared retort — dumping a member with the dumper served and
+    loading the result with the loader served gives the member back (under the hypothesis of the
+    representation in force: injective names / value type covering the value). -/
+theorem multi_bound_enum_rt {c : EnumClass} (wf : c.WF) (recipe : List Bound) (s : Site) (h h' : List Key)
+    {ld : PyVal → Outcome Member} {dp : Member → Option PyVal}
+    (hl : enumLoaderOf c (servedRepr recipe h (s, .loader)) = .ok ld)
+    (hd : enumDumperOf c (servedRepr recipe h' (s, .dumper)) = .ok dp)
+    {m : Member} (hm : m ∈ c.iter) (hok : EnumReprOK c m (select recipe s)) :
+    ∃ v, dp m = some v ∧ ld v = .ok m := by
+  have e1 : servedRepr recipe h (s, .loader) = select recipe s := by
+    simp [servedRepr, served_independent_of_history, select]
+  have e2 : servedRepr recipe h' (s, .dumper) = select recipe s := by
+    simp [servedRepr, served_independent_of_history, select]
+  rw [e1] at hl
+  rw [e2] at hd
+  generalize select recipe s = r at hl hd hok
+  cases r with
+  | enumExact =>
+    simp only [enumLoaderOf, enumDumperOf, Create.ok.injEq] at hl hd
+    subst hl; subst hd
+    exact enum_exact_rt wf hm
+  | enumName cfg => exact enum_name_rt hl hd hok hm
+  | enumValue k =>
+    simp only [enumLoaderOf, enumDumperOf, Create.ok.injEq] at hl hd
+    subst hl; subst hd
+    exact ⟨enumValueDumper k m, rfl, enum_value_rt wf k hm hok⟩
+  | flagExact => simp [enumLoaderOf] at hl
+  | flagList cfg o => simp [enumLoaderOf] at hl
+
+/-- **Round trip for every Flag class bound through any of several predicates**, every union of members. -/
+theorem multi_bound_flag_rt {c : FlagClass} (recipe : List Bound) (s : Site) (h h' : List Key)
+    {ld : PyVal → Outcome Nat} {dp : Nat → PyVal}
+    (hl : flagLoaderOf c (servedRepr recipe h (s, .loader)) = .ok ld)
+    (hd : flagDumperOf c (servedRepr recipe h' (s, .dumper)) = .ok dp)
+    {S : List FlagCase} (hok : FlagReprOK c S (select recipe s)) :
+    ld (dp (unionOf S)) = .ok (unionOf S) := by
+  have e1 : servedRepr recipe h (s, .loader) = select recipe s := by
+    simp [servedRepr, served_independent_of_history, select]
+  have e2 : servedRepr recipe h' (s, .dumper) = select recipe s := by
+    simp [servedRepr, served_independent_of_history, select]
+  rw [e1] at hl
+  rw [e2] at hd
+  generalize select recipe s = r at hl hd hok
+  cases r with
+  | flagExact =>
+    simp only [flagLoaderOf, flagDumperOf, Create.ok.injEq] at hl hd
+    subst hd
+    exact flag_exact_rt hl hok
+  | flagList cfg o =>
+    simp only [flagLoaderOf, flagDumperOf] at hl hd
+    cases hdd : flagListDumper c cfg o with
+    | ok dp0 =>
+      simp only [hdd, Create.ok.injEq] at hd
+      subst hd
+      exact flag_list_rt hl hdd hok.1 hok.2
+    | cannotProvide w => simp [hdd] at hd
+    | raises e => simp [hdd] at hd
+  | enumExact => simp [flagLoaderOf] at hl
+  | enumName cfg => simp [flagLoaderOf] at hl
+  | enumValue k => simp [flagLoaderOf] at hl
+
 /-! ## Non-vacuity: the theorems' hypotheses are satisfiable and the functions compute -/
 
 /-- `class F(Flag): Z = 0; A = 1; B = 2; AB = 3; C = 4; AL = 1` -/
@@ -664,5 +831,31 @@ example : ∀ ld dp, flagListLoader exFlag lowerCfg { allowCompound := false } =
 /-- `creation_total` applied -/
 example (o : ListOpts) : (flagListLoader exFlag lowerCfg o).isOk = true ∧ (flagListDumper exFlag lowerCfg o).isOk = true :=
   creation_total exFlag lowerCfg o (by decide) (by decide)
+
+/-- `enum_by_name(A, P[B], "f2")` followed by `enum_by_exact_value(B)` and a flag provider; classes 0, 1 at top
+    level, class 2 as field `f2` of its holder, class 3 (a flag) at top level: every order of requests gets the
+    same answers (`some 0` = the by-name provider; `none` = built-in) -/
+def exRecipe : List Bound :=
+  [{ checker := boundByAny [.type 0, .type 1, .fieldName "f2"], provider := .enumName lowerCfg },
+   { checker := boundByAny [.type 1, .type 2], provider := .enumExact },
+   { checker := boundByAny [.types [0, 3], .path 3 "f3"], provider := .flagList lowerCfg {} }]
+
+def exSite (i : Nat) : Site := { cls := i, family := if i = 3 then .flag else .enum }
+def exFieldSite (i : Nat) : Site := { exSite i with field := some (i, s!"f{i}") }
+
+example : (serve exRecipe [] [(exSite 0, .loader), (exSite 0, .dumper), (exSite 1, .dumper), (exSite 1, .loader),
+    (exFieldSite 2, .loader), (exSite 2, .dumper), (exSite 3, .dumper), (exSite 0, .loader)]).2 =
+    [some 0, some 0, some 0, some 0, some 0, some 1, some 2, some 0] := by decide
+
+example : (serve exRecipe [] [(exSite 3, .dumper), (exSite 1, .loader), (exSite 0, .dumper), (exSite 0, .loader)]).2 =
+    [some 2, some 0, some 0, some 0] := by decide
+
+/-- `multi_bound_enum_rt` applied: class `exEnum` bound by the second of two predicates -/
+example (h h' : List Key) {ld dp} (hl : enumLoaderOf exEnum (servedRepr exRecipe h (exSite 1, .loader)) = .ok ld)
+    (hd : enumDumperOf exEnum (servedRepr exRecipe h' (exSite 1, .dumper)) = .ok dp) {m} (hm : m ∈ exEnum.iter)
+    (hinj : InjectiveNames exEnum lowerCfg) : ∃ v, dp m = some v ∧ ld v = .ok m :=
+  multi_bound_enum_rt exEnum_wf exRecipe (exSite 1) h h' hl hd hm (by
+    have : select exRecipe (exSite 1) = .enumName lowerCfg := rfl
+    rw [this]; exact hinj)
 
 end Adaptix.Enum.C18
